@@ -321,9 +321,9 @@ impl<const H: usize> Reader<H> {
         offset: u64,
         flushed_offset: u64,
     ) -> Result<Record<'_, H>, ReadError> {
-        let record_header_buf = self
-            .read_ahead_buf
-            .read(&self.file, offset, RECORD_HEAD_SIZE)?;
+        let record_header_buf =
+            self.read_ahead_buf
+                .read(&self.file, offset, RECORD_HEAD_SIZE, flushed_offset)?;
 
         if is_truncation_marker(&record_header_buf[..RECORD_HEAD_SIZE]) {
             return Err(ReadError::TruncationMarker { offset });
@@ -353,9 +353,9 @@ impl<const H: usize> Reader<H> {
             return Err(ReadError::Crc32cMismatch { offset });
         }
 
-        let payload = self
-            .read_ahead_buf
-            .read(&self.file, payload_offset, payload_len)?;
+        let payload =
+            self.read_ahead_buf
+                .read(&self.file, payload_offset, payload_len, flushed_offset)?;
 
         let header = &payload[..H];
         let compressed_data = &payload[H..];
@@ -604,7 +604,13 @@ impl ReadAheadBuf {
         self.valid_len = 0;
     }
 
-    fn read(&mut self, file: &File, offset: u64, length: usize) -> Result<&[u8], ReadError> {
+    fn read(
+        &mut self,
+        file: &File,
+        offset: u64,
+        length: usize,
+        flushed_offset: u64,
+    ) -> Result<&[u8], ReadError> {
         let end_offset = offset + length as u64;
 
         // If offset is within the valid read-ahead range
@@ -614,7 +620,7 @@ impl ReadAheadBuf {
         }
 
         // Fill the read-ahead buffer for the requested offset & length
-        self.fill(file, offset, length)?;
+        self.fill(file, offset, length, flushed_offset)?;
 
         // Ensure we now have enough valid data
         if offset < self.offset || end_offset > (self.offset + self.valid_len as u64) {
@@ -629,7 +635,13 @@ impl ReadAheadBuf {
         Ok(&self.buf[start..start + length])
     }
 
-    fn fill(&mut self, file: &File, offset: u64, mut length: usize) -> Result<(), ReadError> {
+    fn fill(
+        &mut self,
+        file: &File,
+        offset: u64,
+        mut length: usize,
+        flushed_offset: u64,
+    ) -> Result<(), ReadError> {
         let end_offset = offset + length as u64;
 
         // Set the new read-ahead offset aligned to 64KB
@@ -647,10 +659,17 @@ impl ReadAheadBuf {
             self.buf.shrink_to_fit();
         }
 
+        // Never cache bytes at or beyond the flushed offset: they may still change, and a
+        // long-lived reader would keep serving the old content after they are flushed
+        let readable = flushed_offset.saturating_sub(self.offset) as usize;
+        let read_limit = required_size.min(readable);
+
         let mut total_read = 0;
-        while total_read < required_size {
-            let bytes_read =
-                file.read_at(&mut self.buf[total_read..], self.offset + total_read as u64)?;
+        while total_read < read_limit {
+            let bytes_read = file.read_at(
+                &mut self.buf[total_read..read_limit],
+                self.offset + total_read as u64,
+            )?;
             if bytes_read == 0 {
                 break; // EOF reached
             }
